@@ -566,6 +566,73 @@ async fn wait_for_first_slot(
     }
 }
 
+/// Verification hook: a [`BlockProducer`] built from scripted parts and driven one block at a time.
+///
+/// Lets the out-of-tree `/verif` machinery call the two block production entry points
+/// of the (crate-private) producer directly, without the window loop and its waiting.
+#[cfg(feature = "verif-hooks")]
+pub struct VerifBlockProducer<D: Disseminator, T: Network>(BlockProducer<D, T>);
+
+#[cfg(feature = "verif-hooks")]
+impl<D, T> VerifBlockProducer<D, T>
+where
+    D: Disseminator,
+    T: TransactionNetwork,
+{
+    /// Production value of the block time.
+    pub const DELTA_BLOCK: Duration = super::DELTA_BLOCK;
+    /// Production value of the first-slice time.
+    pub const DELTA_FIRST_SLICE: Duration = super::DELTA_FIRST_SLICE;
+
+    /// See [`BlockProducer::new`]; the cancellation token is a fresh one.
+    #[expect(clippy::too_many_arguments)]
+    pub fn new(
+        secret_key: signature::SecretKey,
+        epoch_info: Arc<ValidatorEpochInfo>,
+        disseminator: Arc<D>,
+        txs_receiver: T,
+        blockstore: SharedBlockstore,
+        pool: SharedPool,
+        delta_block: Duration,
+        delta_first_slice: Duration,
+    ) -> Self {
+        Self(BlockProducer::new(
+            secret_key,
+            epoch_info,
+            disseminator,
+            txs_receiver,
+            blockstore,
+            pool,
+            CancellationToken::new(),
+            delta_block,
+            delta_first_slice,
+        ))
+    }
+
+    /// Calls [`BlockProducer::produce_block_parent_ready`] once.
+    pub async fn produce_block_parent_ready(
+        &self,
+        slot: Slot,
+        parent_block_id: BlockId,
+    ) -> Result<BlockId> {
+        self.0
+            .produce_block_parent_ready(slot, parent_block_id)
+            .await
+    }
+
+    /// Calls [`BlockProducer::produce_block_parent_not_ready`] once.
+    pub async fn produce_block_parent_not_ready(
+        &self,
+        slot: Slot,
+        parent_block_id: BlockId,
+        parent_ready_receiver: oneshot::Receiver<BlockId>,
+    ) -> Result<BlockId> {
+        self.0
+            .produce_block_parent_not_ready(slot, parent_block_id, parent_ready_receiver)
+            .await
+    }
+}
+
 #[cfg(test)]
 mod tests {
     use std::time::Duration;
